@@ -84,6 +84,11 @@ Example C11_duplicate_definition_refuted :        (* F25: the same full name def
             = Ok s.
 Proof. eexists. vm_compute. reflexivity. Qed.
 
+Example C11_union_bigdecimal_refuted :            (* F56: big-decimal is a logical type on bytes, accepted next to bytes *)
+  parse_schema 8 (JArr [obj [(K "type", JStr (K "bytes")); (K "logicalType", JStr (K "big-decimal"))]; JStr (K "bytes")])
+  = Ok (SUnion [SBigDecimal; SBytes]).
+Proof. vm_compute. reflexivity. Qed.
+
 Example C11_unresolvable_reference_refuted :      (* F26: accepted, but its reference does not resolve *)
   let j := JArr [fixed_json "F" 1%Z;
                  obj [(K "type", JStr (K "record")); (K "name", JStr (K "R")); (K "namespace", JStr (K "ns"));
